@@ -508,6 +508,9 @@ AggTrue ==
 \* with Excuse = {} these are the property itself
 LaneCountsTrue == Stepped => \A l \in pexp.must : LaneTrue(l)
 AggregateTrue  == (Stepped /\ AggPresent) => AggTrue
+\* The event / command counts belong to the step, not to the state, so P is checked on every
+\* transition (an invariant would only see the first transition TLC finds into each state).
+PStep == [][LaneCountsTrue' /\ AggregateTrue']_vars
 \* the findings' circumstances never arise (true of the repaired variant only)
 NoPhantoms == ph = {}
 NoLostReporter == lost = {}
